@@ -154,6 +154,20 @@ void aws_mem_release(struct aws_allocator *allocator, void *ptr) {
 /* ------------------------------------------------------------------ hash table, client view (ASSUMED; see C02) */
 static void s_element_destroy(void *value); /* linked_hash_table.c: the value destructor the table registers */
 
+/* the callbacks the table was initialised with, dispatched by name (keeps function-pointer removal from offering every
+ * void(void*) function, including s_element_destroy itself, as a candidate) */
+static void lht_user_dv(void *v);
+static void lht_user_dk(void *k);
+static void lht_call_dk(void *k) {
+    if (g_m.ht_dk == lht_user_dk) lht_user_dk(k);
+    else __CPROVER_assert(g_m.ht_dk == NULL, "model: the registered key destructor is the user's or none");
+}
+static void lht_call_dv(void *v) {
+    if (g_m.ht_dv == s_element_destroy) s_element_destroy(v);
+    else if (g_m.ht_dv == lht_user_dv) lht_user_dv(v);
+    else __CPROVER_assert(g_m.ht_dv == NULL, "model: the registered value destructor is s_element_destroy, the user's or none");
+}
+
 static size_t lht_hash_lookup(const void *key) {
     for (size_t s = 0; s < LHT_S; s++)
         if (g_m.live[s] && lht_keq(g_m.el[s].key, key)) return s;
@@ -227,8 +241,8 @@ int aws_hash_table_remove(const struct aws_hash_table *map_c, const void *key, s
     if (p_value) {
         *p_value = old;
     } else {
-        if (g_m.ht_dk) g_m.ht_dk((void *)old.key);
-        if (g_m.ht_dv) g_m.ht_dv(old.value);
+        lht_call_dk((void *)old.key);
+        lht_call_dv(old.value);
     }
     return AWS_OP_SUCCESS;
 }
@@ -241,8 +255,8 @@ void aws_hash_table_clear(struct aws_hash_table *map) {
         if (g_m.live[s]) {
             struct aws_hash_element old = g_m.el[s];
             g_m.live[s] = false;
-            if (g_m.ht_dk) g_m.ht_dk((void *)old.key);
-            if (g_m.ht_dv) g_m.ht_dv(old.value);
+            lht_call_dk((void *)old.key);
+            lht_call_dv(old.value);
         }
     }
     g_m.count = 0;
